@@ -29,6 +29,10 @@ def worker(job, extra):
     seed = job['seed']
     spec = job.get('spec') or gen.gen_spec(seed, dict(PROFILE))
     spec['tie'] = 'native'
+    for nd in spec['nodes']:
+        # a server_priority_function that reads busy_time inherits the open finding K10 (double-counted busy time after a
+        # pause changes the server choice); such functions are not generated here so that records stay strictly judged
+        if nd.get('spf') == 'least_busy': nd['spf'] = 'last'
     T = spec['run']['T']
     r = random.Random(seed)
     cuts = job.get('cuts') or sorted(round(r.uniform(0.0, T), 6) for _ in range(r.randint(1, 5)))
